@@ -835,6 +835,46 @@ func c10Ecma(neg bool, digits string, n int) string {
 	return sb.String()
 }
 
+// hand-written recogniser of the RFC 8259 number grammar (the regexp is too slow for 2^32 calls)
+func c10IsJSONNumber(b []byte) bool {
+	i := 0
+	if i < len(b) && b[i] == '-' {
+		i++
+	}
+	digits := func() int {
+		n := 0
+		for i < len(b) && '0' <= b[i] && b[i] <= '9' {
+			i++
+			n++
+		}
+		return n
+	}
+	switch {
+	case i < len(b) && b[i] == '0':
+		i++
+	case i < len(b) && '1' <= b[i] && b[i] <= '9':
+		digits()
+	default:
+		return false
+	}
+	if i < len(b) && b[i] == '.' {
+		i++
+		if digits() == 0 {
+			return false
+		}
+	}
+	if i < len(b) && (b[i] == 'e' || b[i] == 'E') {
+		i++
+		if i < len(b) && (b[i] == '+' || b[i] == '-') {
+			i++
+		}
+		if digits() == 0 {
+			return false
+		}
+	}
+	return i == len(b)
+}
+
 // c10FloatPred evaluates the float formatting predicates on one value; returns the text (nil on panic).
 func c10FloatPred(c *Ctx, f float64, bits int) (out []byte, neg bool, digits string, dp int) {
 	if bits == 32 {
@@ -859,7 +899,7 @@ func c10FloatPred(c *Ctx, f float64, bits int) (out []byte, neg bool, digits str
 	if want := c10Ecma(neg, digits, dp); string(out) != want {
 		c.Violate("float-layout", op, in[:], map[string]any{"text": string(out), "ecma": want})
 	}
-	if !c10NumLit.Match(out) {
+	if !c10IsJSONNumber(out) {
 		c.Violate("float-not-json", op, in[:], map[string]any{"text": string(out)})
 	}
 	// 3. shortest: no (k-1)-digit decimal parses back to f.  If any did, then (the set of decimals that
@@ -870,8 +910,8 @@ func c10FloatPred(c *Ctx, f float64, bits int) (out []byte, neg bool, digits str
 		}
 		if k >= 2 {
 			lo := digits[:k-1]
-			hiN, _ := new(big.Int).SetString(lo, 10)
-			hi := hiN.Add(hiN, bigOne).String()
+			loN, _ := strconv.ParseUint(lo, 10, 64) // k-1 <= 16 digits
+			hi := strconv.FormatUint(loN+1, 10)
 			for _, cand := range []string{lo + "e" + strconv.Itoa(dp-(k-1)), hi + "e" + strconv.Itoa(dp-(k-1))} {
 				g, err := strconv.ParseFloat(cand, bits)
 				if err == nil && math.Float64bits(g) == math.Float64bits(math.Abs(f)) {
